@@ -81,6 +81,7 @@ let () =
        | "CASE" ->
            let t = toks_of_line l in
            case_id := int t;
+           if Sys.getenv_opt "DRIVER_DEBUG" <> None then (prerr_endline ("case " ^ string_of_int !case_id); flush stderr);
            step := 0;
            pre := None;
            pending_op := `None;
